@@ -204,8 +204,18 @@ def check_options(case, res: Res) -> None:
             for lp in ("language-", LP1):
                 for hi in (None, hl):
                     c2 = copy.deepcopy(cfg)
-                    c2["options"].update(xhtmlOut=xh, breaks=br, langPrefix=lp)
-                    m2 = C.build(c2)
+                    if (xh + br) % 2:
+                        # set after construction through attribute access (one of the three documented routes)
+                        m2 = C.build(c2)
+                        m2.options.xhtmlOut = xh
+                        m2.options.breaks = br
+                        m2.options.langPrefix = lp
+                        if (m2.options["xhtmlOut"], m2.options["breaks"], m2.options["langPrefix"]) != (xh, br, lp):
+                            res.fail("options:attribute-route", f"after options.xhtmlOut={xh}, options.breaks={br}, options.langPrefix={lp!r}: {dict(m2.options)}"[:400])
+                            return
+                    else:
+                        c2["options"].update(xhtmlOut=xh, breaks=br, langPrefix=lp)
+                        m2 = C.build(c2)
                     if hi is not None:
                         m2.options["highlight"] = hi
                     e2: dict = {}
